@@ -13,6 +13,7 @@ EXTENDS C11_Impl, TLC, Json
 CONSTANTS Orders,        \* subset of {1, 2, 4}
           Dts,           \* time steps (grains)
           Targets,       \* target times (grains)
+          TsTargets,     \* times that may appear in the argument of at_times
           MaxTs,         \* longest argument of at_times
           PublicQueue,   \* TRUE: step(queue=True) is also a public call (undocumented parameter; self-test)
           LeftRenormSite,\* site renormalised after a left sweep in imaginary time (0 since fix 7f3de1c3; 1 before)
@@ -39,7 +40,7 @@ Commit(r, call) ==
   /\ last' = call
   /\ br' = br \cup r.br
   /\ tot' = <<CAdd(tot[1], SumClass(r.layers, "R")), CAdd(tot[2], SumClass(r.layers, "L"))>>
-  /\ hist' = IF Record THEN Append(hist, [call |-> call, t |-> r.t, layers |-> r.layers]) ELSE hist
+  /\ hist' = IF Record THEN Append(hist, [call |-> call, t |-> r.t, dt0 |-> r.dt0, nlayers |-> Len(r.layers)]) ELSE hist
 
 Init ==
   /\ \E d0 \in Dts \cup {DtNone} : st = [t |-> 0, sdt |-> d0, dt0 |-> d0, queue |-> <<>>]
@@ -73,7 +74,7 @@ Step(order, dtc, q) ==
      /\ Commit(r, [op |-> "step", order |-> order, t0 |-> st.t, T |-> st.t + dteff, dt |-> dteff, q |-> q,
                    args |-> [dt |-> dtc, order |-> order]])
 
-TsArgs == UNION {[1..n -> Targets] : n \in 1..MaxTs}
+TsArgs == UNION {[1..n -> TsTargets] : n \in 1..MaxTs}
 
 UpdateToA == \E T \in Targets, dtc \in Dts \cup {DtNone}, order \in Orders : UpdateTo(T, dtc, order)
 AtTimesA  == \E ts \in TsArgs, dtc \in Dts \cup {DtNone}, order \in Orders : AtTimes(ts, dtc, order)
